@@ -113,6 +113,9 @@ func (e c18Ev) String() string {
 	if e.Fault {
 		f = " <== FAULT"
 	}
+	if e.Fault && e.Res != "err" && e.Res != "dup" && e.Res != "drop" {
+		f = " <== STALLED beyond the deadline"
+	}
 	return fmt.Sprintf("c%d %s #%d %s -> %s%s", e.Conn, tx, e.Pos, s, e.Res, f)
 }
 
@@ -129,6 +132,9 @@ type c18Reply struct {
 	Cols []c18Col
 	Rows [][]string
 	Tx   byte // transaction status of the connection after the statement: I, T, E
+	// Stall: answer only after c18StallFor (the statement itself is then executed normally);
+	// the wire layer must call core.stallEnd() once the (late) answer has been written.
+	Stall bool
 }
 
 type c18ConnSt struct {
@@ -149,7 +155,33 @@ type c18Core struct {
 	nAff   int
 	nIns   int
 	nconn  int
+	stalls int // statements whose late answer is still pending
 	evs    []c18Ev
+}
+
+// c18StallFor is how long a stalled statement is held back: longer than the 1 s deadline
+// that sql_timeout=1 gives a transaction (txTimeout = int(1*1.5) s = 1 s).
+const c18StallFor = 1500 * time.Millisecond
+
+func (s *c18Core) stallEnd() {
+	s.mu.Lock()
+	s.stalls--
+	s.mu.Unlock()
+}
+
+// quiet reports whether no late answer is pending and no transaction is open at the server.
+func (s *c18Core) quiet() bool {
+	s.mu.Lock()
+	defer s.mu.Unlock()
+	if s.stalls > 0 {
+		return false
+	}
+	for _, tx := range c18Brackets(s.evs) {
+		if tx.end == "" {
+			return false
+		}
+	}
+	return true
 }
 
 func (s *c18Core) connOpen() *c18ConnSt {
@@ -266,6 +298,11 @@ func (s *c18Core) stmt(c *c18ConnSt, sql string, mode int) c18Reply {
 		ev.Pos = s.pos
 	}
 	fault := ev.Pos != 0 && ev.Pos == s.fk
+	if fault && s.fkind == "stall" {
+		// the statement is executed as scripted, only its answer comes after the deadline
+		ev.Fault, rep.Stall, fault = true, true, false
+		s.stalls++
+	}
 	switch {
 	case fault:
 		ev.Fault = true
@@ -404,7 +441,7 @@ func c18Run(c *c18Case, k int, kind string) c18RunRes {
 	}
 	defer srv.stop()
 	adp := c18NewAdapter()
-	if err := adp.Open(json.RawMessage(srv.config())); err != nil {
+	if err := adp.Open(json.RawMessage(srv.config(kind == "stall"))); err != nil {
 		return c18RunRes{OpenFn: "open: " + err.Error()}
 	}
 	srv.core.arm(c.S, k, kind)
@@ -424,6 +461,14 @@ func c18Run(c *c18Case, k int, kind string) c18RunRes {
 	case <-done:
 	case <-time.After(30 * time.Second): // safety net against a bug in the fake server, not an oracle
 		return c18RunRes{Hang: true, Evs: srv.core.snapshot()}
+	}
+	if kind == "stall" {
+		// Deadline expiry is handled asynchronously by the drivers (database/sql rolls back from
+		// a watcher goroutine, pgx closes the connection from one): give the server up to 10 s of
+		// real time to see the end of the transaction. Only "still open after that" is judged.
+		for i := 0; i < 1000 && !srv.core.quiet(); i++ {
+			time.Sleep(10 * time.Millisecond)
+		}
 	}
 	res.Evs = srv.core.snapshot()
 	leaked := false
@@ -726,7 +771,7 @@ func c18Exec(c *c18Case) (kit.Outcome, []string) {
 		}
 		return o, c18TraceStrings(dry.Evs)
 	}
-	if c.K < 0 || c.K > len(pos) || (c.Kind != "err" && c.Kind != "dup" && c.Kind != "drop") || (c.Kind == "dup" && !pos[c.K-1].Ins) {
+	if c.K < 0 || c.K > len(pos) || (c.Kind != "err" && c.Kind != "dup" && c.Kind != "drop" && c.Kind != "stall") || (c.Kind == "dup" && !pos[c.K-1].Ins) {
 		o.Skip = true
 		return o, nil
 	}
@@ -769,8 +814,48 @@ func c18Exec(c *c18Case) (kit.Outcome, []string) {
 		}
 		o.Classes = append(o.Classes, "nil-despite-fault:"+c.Kind+"@"+strings.Join(w, " "))
 	}
+	if c.Kind == "stall" {
+		o.Viol = c18JudgeStall(c, r, r.Evs[fi])
+		return o, tr
+	}
 	o.Viol = c18Judge(c, c.K, c.Kind, r)
 	return o, tr
+}
+
+// c18JudgeStall: statement k was answered only after the transaction deadline (sql_timeout=1).
+// Demanded: no transaction stays open; nil is returned only with exactly one successful COMMIT;
+// an error return goes with no COMMIT at all — except when the stalled statement is the COMMIT
+// itself, where the client cannot know the outcome.
+func c18JudgeStall(c *c18Case, r c18RunRes, stalled c18Ev) *kit.Viol {
+	op := c18Ops[c.Op]
+	v := c18Walk(r.Evs)
+	tr := strings.Join(c18TraceStrings(r.Evs), "\n    ")
+	mk := func(what, why string) *kit.Viol {
+		return kit.V(c18Sig(what, c, c.K, "stall"), "%s %s k=%d statement answered %v late (sql_timeout=1): %s; returned error: %v panic=%q; statement trace:\n    %s",
+			c18AdapterName, c.Op, c.K, c18StallFor, why, r.Err, r.Panic, tr)
+	}
+	commits := 0
+	for _, tx := range v.txs {
+		if tx.end == "" {
+			return mk("open-tx-after-deadline", fmt.Sprintf("the transaction on connection %d is still open 10 s after the call returned", tx.conn))
+		}
+		if tx.end == "commit" {
+			commits++
+		}
+	}
+	if r.Panic != "" || !op.Multi {
+		return nil
+	}
+	if len(v.outside) > 0 {
+		return mk("write-outside-tx", fmt.Sprintf("data-modifying statement outside any transaction: %s", r.Evs[v.outside[0]]))
+	}
+	if r.Err == nil && commits != 1 {
+		return mk("swallowed-deadline", fmt.Sprintf("the call returned nil but %d transactions were committed", commits))
+	}
+	if r.Err != nil && commits > 0 && stalled.Cls != "commit" {
+		return mk("commit-despite-deadline-error", "an error was returned although the transaction was committed")
+	}
+	return nil
 }
 
 // ------------------------------------------------------------------ operation catalogue
@@ -1442,6 +1527,88 @@ func c18EnumUnit(tt *testing.T, unit string) {
 	}
 	if len(unknown) > 0 {
 		tt.Fatalf("%d violation signature(s) not listed as known: %v", len(unknown), unknown)
+	}
+}
+
+// c18StallUnit: deadline expiry. Every position of the default scenario of every argument
+// variant is stalled beyond sql_timeout once. Real time (c18StallFor per case) — the cases run
+// concurrently, each on its own server and adapter; the quick tier only takes a small sample.
+func c18StallUnit(tt *testing.T, unit string) {
+	r := kit.Begin("C18", unit)
+	defer r.Flush()
+	defer c18Cleanup()
+	if c18Replay(tt, r) {
+		return
+	}
+	var cases []*c18Case
+	for _, op := range c18OpList {
+		for _, a := range op.Enum {
+			base := c18Case{Op: op.Name, A: a}
+			for k := range c18Positions(c18Dry(&base).Evs) {
+				cc := base
+				cc.K, cc.Kind = k+1, "stall"
+				cases = append(cases, &cc)
+			}
+		}
+	}
+	total := len(cases)
+	def := 1 << 30
+	if kit.Tier() != "thorough" {
+		def = 16
+	}
+	limit := kit.N(def)
+	stride, off := 1, 0
+	if total > limit {
+		stride = (total + limit - 1) / limit
+		seed, _ := strconv.Atoi(os.Getenv("VERIF_SEED"))
+		off = seed % stride
+	}
+	type result struct {
+		c  *c18Case
+		o  kit.Outcome
+		tr []string
+	}
+	var sel []*c18Case
+	for i, c := range cases {
+		if i%stride == off {
+			sel = append(sel, c)
+		}
+	}
+	results := make([]result, len(sel))
+	sem := make(chan struct{}, 48)
+	var wg sync.WaitGroup
+	for i, c := range sel {
+		wg.Add(1)
+		sem <- struct{}{}
+		go func(i int, c *c18Case) {
+			defer wg.Done()
+			defer func() { <-sem }()
+			o, tr := c18Exec(c)
+			results[i] = result{c, o, tr}
+		}(i, c)
+	}
+	wg.Wait()
+	var unknown []string
+	wrote := false
+	for _, x := range results { // booked in enumeration order, so the outcome does not depend on scheduling
+		if x.o.Viol != nil {
+			b, _ := json.Marshal(x.c.key())
+			fmt.Printf("C18-STALL-VIOLATION sig=%s case=%s\n%s\n", x.o.Viol.Sig, b, x.o.Viol.Msg)
+			if !r.IsKnown(x.o.Viol.Sig) {
+				unknown = append(unknown, x.o.Viol.Sig)
+				if wrote {
+					x.o.Viol = nil
+				}
+				wrote = true
+			}
+		}
+		c18Record(r, x.c, x.o, x.tr)
+	}
+	r.Extra("enumerated_cases", total)
+	r.Extra("executed_cases", len(sel))
+	r.Extra("exhaustive", stride == 1)
+	if len(unknown) > 0 {
+		tt.Fatalf("%d violation(s) not listed as known: %v", len(unknown), unknown)
 	}
 }
 
